@@ -305,13 +305,17 @@ def _free_scenarios(K6):
         # contention amplifiers: many goroutines on one or two keys of one shard, so that a critical section that was
         # split (lock released and re-taken, check outside the lock) is entered by a second goroutine in the gap
         {"name": "hotkey", "cfg": _hc([1, 2], MaxCost=1000, BufCap=64), "goroutines": 16, "opsPer": 300, "clear": False,
-         "maxCostOps": False, "ttls": [], "costs": [1], "ample": True, "sleep": False},
+         "maxCostOps": False, "ttls": [], "costs": [1], "ample": True, "sleep": False, "yield": True},
         {"name": "hotkey-clear", "cfg": _hc([1, 257, 513], MaxCost=1000, BufCap=64), "goroutines": 12, "opsPer": 200, "clear": True,
-         "maxCostOps": False, "ttls": [], "costs": [1], "ample": True, "sleep": False},
+         "maxCostOps": False, "ttls": [], "costs": [1], "ample": True, "sleep": False, "yield": True},
         {"name": "hotkey-collide", "cfg": _hc([1, 2], "CollHash", "CollConf", MaxCost=1000, BufCap=64), "goroutines": 12, "opsPer": 250,
-         "clear": False, "maxCostOps": False, "ttls": [1, 5], "costs": [1], "ample": True, "sleep": False},
+         "clear": False, "maxCostOps": False, "ttls": [1, 5], "costs": [1], "ample": True, "sleep": False, "yield": True},
         {"name": "sweeprace", "cfg": _hc([1, 2, 3], MaxCost=100000, BufCap=64, D=1), "goroutines": 6, "opsPer": 150, "clear": False,
-         "maxCostOps": False, "ttls": [1, 1, 2, 0, 30], "costs": [1], "ample": True, "sleep": True, "pattern": "sweeprace"},
+         "maxCostOps": False, "ttls": [1, 1, 2, 0, 30], "costs": [1], "ample": True, "sleep": True, "pattern": "sweeprace", "yield": True},
+        {"name": "admitrace", "cfg": _hc([1, 2, 3], MaxCost=2, BufCap=8, numCounters=16), "goroutines": 8, "opsPer": 250, "clear": False, "maxCostOps": False,
+         "ttls": [], "costs": [1], "ample": False, "sleep": False, "pattern": "admitrace", "yield": True},
+        {"name": "tight-yield", "cfg": _hc(K6, MaxCost=6, BufCap=4), "goroutines": 8, "opsPer": 200, "clear": False, "maxCostOps": False,
+         "ttls": [], "costs": [1, 2, 3], "ample": False, "sleep": False, "yield": True},
         {"name": "refuse", "cfg": _hc(K6, MaxCost=8, BufCap=4, RefuseVals=list(range(3, 4000, 3))), "goroutines": 4, "opsPer": 200, "clear": False,
          "maxCostOps": False, "ttls": [], "costs": [1, 2], "ample": False, "sleep": False},
     ]
@@ -319,6 +323,11 @@ def _free_scenarios(K6):
 
 FREE_OVERLAYS = dict(OVERLAYS)
 FREE_OVERLAYS["verif_free_test.go"] = "cache/free_test.go.txt"
+# schedule fuzzing at lock boundaries: the package sources of the tree under test are overlaid with copies in
+# which every Lock/Unlock is surrounded by verifYield() (switched on per scenario, "yield": true)
+FREE_OVERLAYS["verif_yield.go"] = ("common/yield.go.txt", "ristretto")
+for _f in ("store.go", "ttl.go", "policy.go", "cache.go"):
+    FREE_OVERLAYS[_f] = vlib.yield_at_locks
 
 
 def free_run(ctx, scenarios, rounds=1, race=True, name="free", timeout=1500):
